@@ -24,10 +24,14 @@ use ciphercore_base::ops::newton_inversion::NewtonInversion;
 use ciphercore_base::ops::pwl::approx_exponent::ApproxExponent;
 use ciphercore_base::ops::pwl::approx_gelu::ApproxGelu;
 use ciphercore_base::ops::pwl::approx_sigmoid::ApproxSigmoid;
+use ciphercore_base::ops::taylor_exponent::TaylorExponent;
+use ciphercore_base::inline::inline_common::DepthOptimizationLevel;
+use ciphercore_base::inline::inline_ops::{inline_operations, InlineConfig, InlineMode};
+use ciphercore_base::mpc::mpc_compiler::{prepare_for_mpc_evaluation, IOStatus};
 use serde_json::json;
 use std::panic::AssertUnwindSafe;
 
-pub const HEADER: &str = "From CC Require Import Base.Prelude Model.Fixed Model.PwlData.";
+pub const HEADER: &str = "From CC Require Import Base.Prelude Model.Fixed Model.PwlData Model.Taylor.";
 
 const CHUNK: usize = 16;
 
@@ -442,12 +446,14 @@ fn run_goldschmidt(tier: &str, rng: &mut Rng, out: &mut Out, worst: &mut std::co
                             if q > 0 && diff * 100 / q > 1 {
                                 out.stat("goldschmidt-exceeds-unit-test-tolerance");
                             }
-                            wa.upd((got - exact).abs() - 0.01 * exact, format!("n={} d={} got={} exact={:.3} ({})", n, d, gotq, exact, name));
-                            if (got - exact).abs() > 0.01 * exact + 3.0 {
+                            // each truncation of b loses up to 2^-cap relatively: the relative part cannot be better than iterations * 2^-cap
+                            let rel_tol = f64::max(0.01, iters as f64 / (1u128 << cap) as f64);
+                            wa.upd((got - exact).abs() - rel_tol * exact, format!("n={} d={} got={} exact={:.3} ({})", n, d, gotq, exact, name));
+                            if (got - exact).abs() > rel_tol * exact + 3.0 {
                                 out.violation(
                                     "goldschmidt-tolerance",
                                     json!({"op":"GoldschmidtDivision","cap":cap,"iterations":iters,"st":scalar(st),"init":with_init,"dividend":n.to_string(),"divisor":d.to_string()}),
-                                    format!("result {} but 2^{}*{}/{} = {:.3} (tolerance: 1% + 3 units)", gotq, cap, n, d, exact),
+                                    format!("result {} but 2^{}*{}/{} = {:.3} (tolerance: max(1%, iterations/2^cap) + 3 units)", gotq, cap, n, d, exact),
                                 );
                             } else {
                                 out.oracle_ok();
@@ -455,7 +461,7 @@ fn run_goldschmidt(tier: &str, rng: &mut Rng, out: &mut Out, worst: &mut std::co
                         }
                         let e = worst.entry(format!("goldschmidt(rel err, quotient>=100) cap={}", cap)).or_insert_with(Worst::new);
                         e.upd(wr.v, wr.at);
-                        let e = worst.entry(format!("goldschmidt(abs err - 1%, units) cap={}", cap)).or_insert_with(Worst::new);
+                        let e = worst.entry(format!("goldschmidt(abs err - rel tol, units) cap={}", cap)).or_insert_with(Worst::new);
                         e.upd(wa.v, wa.at);
                     }
                 }
@@ -515,6 +521,103 @@ fn run_fixed_multiply(tier: &str, rng: &mut Rng, out: &mut Out) {
             }
         } else {
             out.violation("fixed-multiply-fails", input, "FixedMultiply failed to instantiate or evaluate".into());
+        }
+    }
+}
+
+// ------------------------------------------------------------------------------- Taylor exponent
+fn run_taylor(tier: &str, rng: &mut Rng, out: &mut Out, worst: &mut std::collections::BTreeMap<String, Worst>) {
+    let npts = if tier == "quick" { 200 } else { 4000 };
+    let mut cfgs: Vec<(u64, u64)> = vec![(5, 10), (5, 4), (5, 15), (5, 0), (3, 8)];
+    if tier != "quick" {
+        cfgs.extend([(5, 1), (5, 6), (5, 12), (5, 13), (5, 14), (8, 10), (1, 10), (0, 10), (2, 15), (5, 16)]);
+    }
+    for &(terms, p) in cfgs.iter() {
+        let input = json!({"op":"TaylorExponent","taylor_terms":terms,"fixed_precision_points":p});
+        // the two f64-derived constants, with the expressions of taylor_exponent.rs:87,137
+        let c1 = (((1u64 << p.min(62)) as f64) / 2.0_f64.ln()) as u64;
+        let c2 = (2_f64.ln() * ((1u64 << p.min(62)) as f64)) as u64;
+        let one = (1u64 << p.min(62)) as f64;
+        // documented use: |x| <= 10 (tests: 10000/1024), and exp(x) 2^p below 2^31
+        let hi_real = f64::min(10.0, (30.0 - p as f64) * 2.0_f64.ln());
+        let (lo_i, hi_i) = ((-10.0 * one) as i64, (hi_real * one) as i64);
+        let mut pts: Vec<i64> = vec![lo_i, lo_i + 1, -1, 0, 1, hi_i - 1, hi_i];
+        // integer boundaries of x / ln 2 (where the integer/fraction split changes)
+        for k in -14i64..=14 {
+            let b = (k as f64 * 2.0_f64.ln() * one) as i64;
+            for x in [b - 1, b, b + 1] {
+                if x >= lo_i && x <= hi_i {
+                    pts.push(x);
+                }
+            }
+        }
+        while pts.len() < npts {
+            pts.push(rng.range(lo_i, hi_i));
+        }
+        pts.sort();
+        pts.dedup();
+        let ndom = pts.len();
+        // tie only: below -10, above the representable range, extremes
+        for x in [lo_i - 1, lo_i - (one as i64), 2 * lo_i, hi_i + 1, 2 * hi_i + 3, 40 * (one as i64), i64::MAX, i64::MIN, i64::MIN + 1, -1i64 << 40, 1i64 << 40] {
+            pts.push(x);
+        }
+        for _ in 0..10 {
+            pts.push(rng.next() as i64);
+        }
+        let words: Vec<u128> = pts.iter().map(|x| *x as u64 as u128).collect();
+        let r = eval_op(|| CustomOperation::new(TaylorExponent { taylor_terms: terms, fixed_precision_points: p }), INT64, &[words.clone()]);
+        out.stat(&format!("taylor:{}", r.tag()));
+        match r {
+            Outcome::Ok((res, _)) => {
+                let f = format!("taylor_exponent {} {} {} {}", terms, p, c1, c2);
+                let spts: Vec<String> = words.iter().map(|x| x.to_string()).collect();
+                emit_chunks(out, "taylor_exponent", &f, &spts, &res, input.clone(), true);
+                if terms >= 5 && p == 0 {
+                    // documented by test_exp_integer: with zero precision the op computes 2^x exactly
+                    for i in 0..ndom {
+                        let x = pts[i];
+                        if (0..=10).contains(&x) {
+                            if res[i] as u64 as i64 != 1i64 << x {
+                                out.violation("taylor-exponent-p0", json!({"op":"TaylorExponent","taylor_terms":terms,"fixed_precision_points":0,"x":x}), format!("got {} expected 2^{}", res[i] as u64 as i64, x));
+                            } else {
+                                out.oracle_ok();
+                            }
+                        }
+                    }
+                } else if terms >= 5 {
+                    let wk = format!("taylor_exp(abs err - 1%, units) p={}", p);
+                    for i in 0..ndom {
+                        let x = pts[i] as f64 / one;
+                        let exact = x.exp() * one;
+                        let got = res[i] as u64 as i64;
+                        // tests (p = 10 only): |expected - actual| / (1 + max(expected, actual)) <= 0.01, expected = trunc(exp(x) 2^p)
+                        let e = exact as i64;
+                        let rel = ((e - got).abs() as f64) / (1.0 + f64::max(e as f64, got as f64));
+                        if rel > 0.01 && p == 10 {
+                            out.stat("taylor-exceeds-unit-test-tolerance");
+                        }
+                        // tolerance: 1% relative plus 2 units, enforced at the tests' precision 10; other precisions have no
+                        // documented tolerance (the constants 1/ln 2, ln 2 are quantised to p bits, and the cutoff compares
+                        // x/ln 2 with -10): exceedances are counted and the worst error is printed, not failed
+                        let excess = (got as f64 - exact).abs() - 0.01 * exact;
+                        worst.entry(wk.clone()).or_insert_with(Worst::new).upd(excess, format!("x={} got={} exact={:.3}", pts[i], got, exact));
+                        if excess > 2.0 {
+                            if p == 10 {
+                                out.violation("taylor-exponent-tolerance", json!({"op":"TaylorExponent","taylor_terms":terms,"fixed_precision_points":p,"x":pts[i]}), format!("got {} exact {:.3}: beyond 1% + 2 units", got, exact));
+                            } else {
+                                out.stat(&format!("taylor-beyond-1pct-2units p={}", p));
+                                if got == 0 && x > -10.0 {
+                                    out.stat(&format!("taylor-zeroed-above-minus-10 p={}", p));
+                                }
+                            }
+                        } else {
+                            out.oracle_ok();
+                        }
+                    }
+                }
+            }
+            Outcome::Err => { out.case("taylor_exponent", format!("taylor_exponent {} {} {} {} 0", terms, p, c1, c2), "Err".into(), input, true); }
+            Outcome::Panic => { out.case("taylor_exponent", format!("taylor_exponent {} {} {} {} 0", terms, p, c1, c2), "Panic".into(), input, true); }
         }
     }
 }
@@ -763,19 +866,144 @@ fn run_pwl(tier: &str, rng: &mut Rng, out: &mut Out, worst: &mut std::collection
     }
 }
 
-/// `tier = gen`: print the Coq data file for the committed tables (regeneration tool, not part of a check run)
+// ------------------------------------------------------------------------------- compiled smoke test
+/// thorough tier only: the compiled (MPC, evaluated by one evaluator) version of three ops on a
+/// handful of points agrees with the plaintext evaluation up to a few units of truncation error.
+fn run_compiled_smoke(out: &mut Out) {
+    let cases: Vec<(&str, Box<dyn Fn() -> CustomOperation>, ScalarType, Vec<i64>, i64)> = vec![
+        ("NewtonInversion(5,10)", Box::new(|| CustomOperation::new(NewtonInversion { iterations: 5, denominator_cap_2k: 10 })), INT64, vec![1, 3, 123, 700], 3),
+        ("ApproxSigmoid(p=10)", Box::new(|| CustomOperation::new(ApproxSigmoid { precision: 10, approximation_log_buckets: 5 })), INT64, vec![-3000, -1, 700, 5000], 3),
+        ("FixedMultiply(10) by itself", Box::new(|| CustomOperation::new(FixedMultiply { config: FixedPrecisionConfig { fractional_bits: 10, debug: false } })), INT64, vec![-3000, 5, 70000, 1 << 20], 2),
+    ];
+    for (name, mk, st, xs, tol) in cases.into_iter() {
+        let two_args = name.starts_with("FixedMultiply");
+        let words: Vec<u128> = xs.iter().map(|x| *x as u64 as u128).collect();
+        let plain = eval_op(|| mk(), st, &if two_args { vec![words.clone(), words.clone()] } else { vec![words.clone()] });
+        let n = words.len() as u64;
+        let t = array_type(vec![n], st);
+        let w2 = words.clone();
+        let compiled = observe(AssertUnwindSafe(|| {
+            let c = simple_context(|g| {
+                let i = g.input(t.clone())?;
+                if two_args {
+                    g.custom_op(mk(), vec![i.clone(), i])
+                } else {
+                    g.custom_op(mk(), vec![i])
+                }
+            })?;
+            let cfg = InlineConfig { default_mode: InlineMode::DepthOptimized(DepthOptimizationLevel::Default), ..Default::default() };
+            let inst = run_instantiation_pass(c)?.get_context();
+            let inl = inline_operations(&inst, cfg.clone())?.get_context();
+            let comp = prepare_for_mpc_evaluation(&inl, vec![vec![IOStatus::Party(0)]], vec![vec![IOStatus::Party(0)]], cfg)?.get_context();
+            let r = random_evaluate(comp.get_main_graph()?, vec![Value::from_flattened_array(&w2, st)?])?;
+            r.to_flattened_array_u128(t.clone())
+        }));
+        out.stat(&format!("compiled-smoke {}:{}", name, compiled.tag()));
+        match (plain, compiled) {
+            (Outcome::Ok((p, _)), Outcome::Ok(c)) => {
+                for i in 0..p.len() {
+                    let (a, b) = (p[i] as u64 as i64, c[i] as u64 as i64);
+                    if (a - b).abs() > tol {
+                        out.violation("compiled-vs-plaintext", json!({"op":name,"x":xs[i]}), format!("plaintext {} compiled {} (allowed truncation error {})", a, b, tol));
+                    } else {
+                        out.oracle_ok();
+                    }
+                }
+            }
+            _ => out.violation("compiled-fails", json!({"op":name}), "compilation or evaluation of the compiled op failed".into()),
+        }
+    }
+}
+
+/// (relative, absolute numerator, absolute denominator or 0 for 2^p) claimed per op in the interval theorems
+fn claimed_tolerance(kind: Pwl, p: u64) -> (&'static str, u64, u64) {
+    match kind {
+        Pwl::Exp => ("4/100", 1, 1u64 << p),
+        Pwl::Sigmoid => ("0", 45, 10000),
+        Pwl::Gelu => ("0", 7, 1000),
+    }
+}
+fn zc(x: i128) -> String {
+    z_i128(x)
+}
+
+/// `tier = gen`: regenerate the committed Coq files that depend on the tables the Rust code builds now
+/// (Model/PwlData.v, Proofs/PwlTables_<op>_p<precision>.v, Proofs/PwlTotal.v).  Not part of a check run:
+///   harness/target/debug/ccverif C20 gen 0 /tmp/gen.jsonl
+///   python3 -c "import json;[open('coq/'+r['key'][5:],'w').write(r['value']) for r in map(json.loads,open('/tmp/gen.jsonl')) if r.get('t')=='note' and r['key'].startswith('file:')]"
 fn gen_data(out: &mut Out) {
-    let mut s = String::new();
-    s.push_str("(* Generated by `ccverif C20 gen 0 <out>` (harness/src/c20.rs gen_data) from the tables the\n   Rust code builds now; compared with the tables extracted on every run (T:tables_eq). *)\nFrom CC Require Import Base.Prelude.\n");
+    let mut data = String::new();
+    data.push_str("(* Generated by `ccverif C20 gen 0 <out>` (harness/src/c20.rs gen_data) from the tables the\n   Rust code builds now; compared with the tables extracted on every run (T:tables_eq). *)\nFrom CC Require Import Base.Prelude.\n");
+    let mut total = String::new();
+    total.push_str("(* Generated (harness/src/c20.rs, tier gen): (a)+(b) combined for each committed table: the output\n   word of the integer evaluation is within rel*f + abs + 2^-p of the exact function, at every\n   input of the table's range. *)\nFrom Coq Require Import Reals.\nFrom CC Require Import Base.Prelude Model.Fixed Model.PwlData Proofs.FixedBits Proofs.FixedPwl Proofs.PwlReal.\nFrom CC Require Import");
+    for (k, p, _) in COMMITTED.iter() {
+        total.push_str(&format!(" Proofs.PwlTables_{}_p{}", k.name(), p));
+    }
+    total.push_str(".\nOpen Scope R_scope.\n");
     for (k, p, lb) in COMMITTED.iter() {
         let kind = *k;
-        let (_, ctx) = eval_op(|| kind.op(*p, *lb), INT64, &[vec![0u128]]).ok().expect("instantiate");
+        let (p, lb) = (*p, *lb);
+        let (_, ctx) = eval_op(|| kind.op(p, lb), INT64, &[vec![0u128]]).ok().expect("instantiate");
         let t = extract_tables(&ctx).expect("tables");
         let n = format!("{}_p{}", kind.name(), p);
-        s.push_str(&format!("Definition {}_alphas : list Z := {}.\nDefinition {}_betas : list Z := {}.\nDefinition {}_left : Z := {}.\nDefinition {}_divisor : Z := {}.\nDefinition {}_lb : Z := {}.\n",
+        data.push_str(&format!("Definition {}_alphas : list Z := {}.\nDefinition {}_betas : list Z := {}.\nDefinition {}_left : Z := {}.\nDefinition {}_divisor : Z := {}.\nDefinition {}_lb : Z := {}.\n",
             n, zl(&t.alphas), n, zl(&t.betas), n, z_i128(t.left_fp as i128), n, t.divisor, n, lb));
+        let (rel, an, ad) = claimed_tolerance(kind, p);
+        let one: i128 = 1 << p;
+        let one2: i128 = 1 << (2 * p);
+        let nseg: i128 = 1 << lb;
+        let (l, d) = (t.left_fp as i128, t.divisor as i128);
+        // per-segment interval lemmas + the table lemma
+        let mut f = String::new();
+        f.push_str(&format!("(* Generated (harness/src/c20.rs, tier gen): interval proofs for the committed table {}. *)\nFrom Coq Require Import Reals.\nFrom Interval Require Import Tactic.\nFrom CC Require Import Base.Prelude Model.PwlData Proofs.PwlReal.\nOpen Scope R_scope.\n\n", n));
+        for i in 1..=nseg {
+            let lo = l + (i - 1) * d - if i == 1 { d } else { 0 };
+            let hi = l + i * d;
+            f.push_str(&format!("Lemma {}_seg{} : seg_bound {}_fn ({}) ({}/{}) {} {} {} {} {} {}.\n", n, i, kind.name(), rel, an, ad, one, one2, zc(lo), zc(hi), zc(t.alphas[i as usize] as i128), zc(t.betas[i as usize] as i128)));
+            f.push_str(&format!("Proof. unfold seg_bound, {}_fn. intros x Hx; apply Rabs_le; split; apply Rminus_le; interval with (i_bisect x, i_taylor x, i_prec 53). Qed.\n", kind.name()));
+        }
+        f.push_str(&format!("\nLemma {n}_table : table_bound {k}_fn ({rel}) ({an}/{ad}) {p} {n}_lb {n}_left {n}_divisor {n}_alphas {n}_betas.\nProof.\n  unfold table_bound. intros i a b Hi Ha Hb.\n  change (2 ^ {n}_lb)%Z with {nseg}%Z in Hi.\n", n = n, k = kind.name(), rel = rel, an = an, ad = ad, p = p, nseg = nseg));
+        let disj: Vec<String> = (1..=nseg).map(|k| format!("i = {}", k)).collect();
+        f.push_str(&format!("  assert (Hc : ({})%Z) by lia.\n", disj.join(" \\/ ")));
+        for k in 1..=nseg {
+            let tac = format!("subst i; vm_compute in Ha, Hb; injection Ha as <-; injection Hb as <-; exact {}_seg{}", n, k);
+            if k < nseg {
+                f.push_str(&format!("  destruct Hc as [Hc|Hc]; [{}|].\n", tac));
+            } else {
+                f.push_str(&format!("  {}.\n", tac));
+            }
+        }
+        f.push_str("Qed.\n");
+        out.note(&format!("file:Proofs/PwlTables_{}.v", n), json!(f));
+        // the combined lemma
+        let amax = t.alphas.iter().map(|a| (*a as i128).abs()).max().unwrap();
+        let bmax = t.betas.iter().map(|b| (*b as i128).abs()).max().unwrap();
+        let (lo, hi) = (l - d, l + nseg * d);
+        let xmax = std::cmp::max(lo.abs(), hi.abs());
+        assert!(amax * xmax + bmax < (1i128 << 63));
+        total.push_str(&format!(r#"
+Lemma {n}_total : forall x out, word x -> ({lo} < sv 64 x < {hi})%Z ->
+  pwl_eval {p} {lb} {n}_alphas {n}_betas {n}_left {n}_divisor x = Ok out ->
+  Rabs (IZR (sv 64 out) / {one} - {k}_fn (IZR (sv 64 x) / {one}))
+  <= {rel} * {k}_fn (IZR (sv 64 x) / {one}) + {an}/{ad} + 1/{one}.
+Proof.
+  intros x out Hx Hd He.
+  assert (H1 : (0 <= {p})%Z) by lia. assert (H2 : (0 < {lb} < 62)%Z) by lia.
+  assert (H3 : table_small {n}_alphas {n}_betas {amax} {bmax} = true) by (vm_compute; reflexivity).
+  assert (H4 : (0 <= {xmax})%Z) by lia.
+  assert (H5 : ({amax} * {xmax} + {bmax} < 2 ^ 63)%Z) by (vm_compute; reflexivity).
+  assert (H6 : ({n}_left - {n}_divisor < sv 64 x < {n}_left + 2 ^ {lb} * {n}_divisor)%Z).
+  {{ unfold {n}_left, {n}_divisor. change (2 ^ {lb})%Z with {nseg}%Z. lia. }}
+  assert (H7 : (Z.abs (sv 64 x) <= {xmax})%Z) by lia.
+  assert (H8 : (- 2 ^ 63 <= sv 64 x - {n}_left < 2 ^ 63)%Z).
+  {{ unfold {n}_left. change (2 ^ 63)%Z with 9223372036854775808%Z. lia. }}
+  exact (pwl_total {k}_fn ({rel}) ({an}/{ad}) {p} {lb} {n}_alphas {n}_betas {n}_left {n}_divisor
+           {amax} {bmax} {xmax} H1 H2 {n}_table H3 H4 H5 x out Hx H6 H7 H8 He).
+Qed.
+"#, n = n, k = kind.name(), lo = lo, hi = hi, p = p, lb = lb, one = one, rel = rel, an = an, ad = ad, amax = amax, bmax = bmax, xmax = xmax, nseg = nseg));
     }
-    out.note("pwl_data_v", json!(s));
+    out.note("file:Model/PwlData.v", json!(data));
+    out.note("file:Proofs/PwlTotal.v", json!(total));
 }
 
 pub fn run(tier: &str, seed: u64, out: &mut Out) {
@@ -790,6 +1018,10 @@ pub fn run(tier: &str, seed: u64, out: &mut Out) {
     run_isqrt(tier, &mut rng, out, &mut worst);
     run_goldschmidt(tier, &mut rng, out, &mut worst);
     run_fixed_multiply(tier, &mut rng, out);
+    run_taylor(tier, &mut rng, out, &mut worst);
+    if tier == "thorough" {
+        run_compiled_smoke(out);
+    }
     let w: serde_json::Map<String, serde_json::Value> = worst.iter().map(|(k, v)| (k.clone(), json!({"worst": v.v, "at": v.at}))).collect();
     for (k, v) in worst.iter() {
         eprintln!("[C20 worst] {} : {:.6} at {}", k, v.v, v.at);
